@@ -166,6 +166,30 @@ def callTicks : Nat := 2
 /-- return from a frame: pop_control_stack and the values above the frame's base -/
 def leave (s : St) (depth sp : Int) : St := { s with depth := depth, sp := sp }
 
+/-- push_control_stack (FRAME_CATCH) in do_catch, after save_context made the depth test -/
+def pushCatchFrame (s : St) : St :=
+  let d := s.depth + 1
+  { s with depth := d, maxDepth := if d > s.maxDepth then d else s.maxDepth }
+
+/-- sequencing: continue with `k` when the first part completed, otherwise the longjmp (or fuel-out) propagates -/
+def seqM (r : Out × St) (k : St → Out × St) : Out × St :=
+  match r with
+  | (.ok, s) => k s
+  | r => r
+
+/-- do_catch after the longjmp landed (src/frame.c): restore_context (csp = save_csp + 1, pop_control_stack, pop
+    the values), `sp++; *sp = catch_value`, then the two error_state tests -/
+def catchLanding (cfg : Cfg) (ctx : Ctx) (d0 p0 : Int) (k : Kind) (s : St) : Out × St :=
+  let s := pushUnchecked (leave s d0 p0)
+  if hasEs s esMaxEvalCost then
+    -- pop_context (clears error_state); set_error_state (ES_MAX_EVAL_COST) (fix); error ("Can't catch eval cost ...")
+    raise cfg ctx .cost { s with es := esMaxEvalCost }
+  else if hasEs s esStackFull then
+    raise cfg ctx .deep { s with es := esStackFull }
+  else
+    -- pop_context; the caught value is the value of the catch expression, the statement pops it
+    (.ok, { (leave s d0 p0) with es := 0, evs := .afterCatch k :: s.evs })
+
 /-- execute a shape under the innermost error context `ctx`; `fuel` bounds the model's own recursion -/
 def exec (cfg : Cfg) : Nat → Ctx → Sh → St → Out × St
   | 0, _, _, s => (.fuel, s)
@@ -180,25 +204,13 @@ def exec (cfg : Cfg) : Nat → Ctx → Sh → St → Out × St
       (match ctx with
        | .catch_ => (.raised .thrown, s)
        | _ => raise cfg ctx .plain s)
-    | .seq a b =>
-      (match exec cfg f ctx a s with
-       | (.ok, s) => exec cfg f ctx b s
-       | r => r)
+    | .seq a b => seqM (exec cfg f ctx a s) fun s => exec cfg f ctx b s
     | .call locals body =>
-      let d0 := s.depth
-      let p0 := s.sp
-      (match pushFrame cfg ctx s with
-       | (.ok, s) =>
-         (match pushChecked cfg ctx locals s with
-          | (.ok, s) =>
-            (match ticksN cfg ctx callTicks s with
-             | (.ok, s) =>
-               (match exec cfg f ctx body s with
-                | (.ok, s) => (.ok, leave s d0 p0)
-                | r => r)
-             | r => r)
-          | r => r)
-       | r => r)
+      -- push_control_stack, setup_new_frame (push_undefineds (locals)), the body, return
+      seqM (pushFrame cfg ctx s) fun s1 =>
+      seqM (pushChecked cfg ctx locals s1) fun s2 =>
+      seqM (ticksN cfg ctx callTicks s2) fun s3 =>
+      seqM (exec cfg f ctx body s3) fun s4 => (.ok, leave s4 s.depth s.sp)
     | .recur locals =>
       -- f () { <locals>; f (); } : `call locals (recur locals)`, unfolded with the fuel
       exec cfg f ctx (.call locals (.recur locals)) s
@@ -209,21 +221,17 @@ def exec (cfg : Cfg) : Nat → Ctx → Sh → St → Out × St
     | .cb (k + 1) body =>
       -- an efun that calls back: each callback is a function call (fake frame + function frame); errors
       -- propagate out of the efun (call_efun_callback is not a safe apply)
-      (match exec cfg f ctx (.call 0 (.call 0 body)) s with
-       | (.ok, s) => exec cfg f ctx (.cb k body) s
-       | r => r)
+      seqM (exec cfg f ctx (.call 0 (.call 0 body)) s) fun s => exec cfg f ctx (.cb k body) s
     | .safe body =>
       -- safe_apply: save_context fails silently at full depth (returns 0); an error is swallowed;
       -- pop_context clears error_state either way
       if s.depth - 1 == cfg.maxDepth - 1 then (.ok, s)
       else
-        let d0 := s.depth
-        let p0 := s.sp
         (match exec cfg f .safe (.call 0 body) s with
-         | (.ok, s) => (.ok, { s with es := 0 })
-         | (.raised k, s) =>
-           (.ok, { (leave s d0 p0) with es := 0, evs := .safeSwallowed k :: s.evs })
-         | (.fuel, s) => (.fuel, s))
+         | (.ok, s1) => (.ok, { s1 with es := 0 })
+         | (.raised k, s1) =>
+           (.ok, { (leave s1 s.depth s.sp) with es := 0, evs := .safeSwallowed k :: s1.evs })
+         | (.fuel, s1) => (.fuel, s1))
     | .catch_ body =>
       -- do_catch (src/frame.c).
       -- `if (!save_context (&econ)) error ("*Can't catch too deep recursion error.")`; at full depth the master's
@@ -231,27 +239,13 @@ def exec (cfg : Cfg) : Nat → Ctx → Sh → St → Out × St
       if s.depth - 1 == cfg.maxDepth - 1 then
         raise cfg ctx .deep (setEs s esStackFull)
       else
-        let d0 := s.depth
-        let p0 := s.sp
         -- push_control_stack (FRAME_CATCH): cannot fail, save_context made the same test
-        let d := s.depth + 1
-        let s := { s with depth := d, maxDepth := if d > s.maxDepth then d else s.maxDepth }
-        (match exec cfg f .catch_ body s with
-         | (.ok, s) =>
+        (match exec cfg f .catch_ body (pushCatchFrame s) with
+         | (.ok, s2) =>
            -- no error: pop_context; the catch frame was popped by F_END_CATCH
-           (.ok, { (leave s d0 p0) with es := 0 })
-         | (.fuel, s) => (.fuel, s)
-         | (.raised k, s) =>
-           -- restore_context: csp = save_csp + 1, pop_control_stack, pop the values; `sp++; *sp = catch_value`
-           let s := pushUnchecked (leave s d0 p0)
-           if hasEs s esMaxEvalCost then
-             -- pop_context (clears error_state); set_error_state (ES_MAX_EVAL_COST); error ("Can't catch eval cost ...")
-             raise cfg ctx .cost { s with es := esMaxEvalCost }
-           else if hasEs s esStackFull then
-             raise cfg ctx .deep { s with es := esStackFull }
-           else
-             -- pop_context; the caught value is the value of the catch expression, the statement pops it
-             (.ok, { (leave s d0 p0) with es := 0, evs := .afterCatch k :: s.evs }))
+           (.ok, { (leave s2 s.depth s.sp) with es := 0 })
+         | (.fuel, s2) => (.fuel, s2)
+         | (.raised k, s2) => catchLanding cfg ctx s.depth s.sp k s2)
 
 /-- the state in which the driver starts an evaluation (backend.c: `eval_cost = CONFIG_INT (__MAX_EVAL_COST__)`,
     empty stacks, clear error state) -/
